@@ -20,7 +20,11 @@ RULE = ("prog: 2..6 flows, each waits for `match E(<subset of the payload, occas
         "an event from a per-loop pool with deliberate duplicates; optional `priority`, `@loop`, `start`/`activate`, follow-up Stop on shared "
         "action references; each program is run under several tie-break choice sequences (thorough: all sequences when <= 4 heads tie). "
         "fn: 1..7 synthetic heads over <= 3 loops with score vectors of length 0..3 from a colliding value pool, shared flows, catch labels, "
-        "duplicate events. non-trivial = some recorded call has >= 2 heads in one loop; distinct = distinct case JSON.")
+        "duplicate events, Start and Stop events of the heads' actions. 5% of the programs: flows of one loop that start actions on different events "
+        "and stop them on the same event (identical non-Start events of different action instances). score: two match statements (0..8 mentioned "
+        "parameters, priority pool) against one event through the real _compute_event_comparison_score, float order vs the exact order of "
+        "prio*(num/den)^k (Lean mcmp). non-trivial = some recorded call has >= 2 heads in one loop, or a score pair that differs in k or priority; "
+        "distinct = distinct case JSON.")
 TRUSTED_BASE = [
     "record/replay harness harness/props/C05.py (recorders around _resolve_action_conflicts/_abort_flow/random.choice, rank mapping of floats, "
     "event keys = canonical JSON of name+arguments) + Lean driver Drive/C05.lean",
@@ -30,7 +34,7 @@ TRUSTED_BASE = [
 ASSUMPTIONS = [
     "head uids handed to _resolve_action_conflicts are pairwise distinct (checked on every recorded call)",
     "a competing action uid is present in its flow's action_uids and in state.actions (list.index / del would raise otherwise; not modelled)",
-    "modelled by hand: _resolve_action_conflicts (with the repair of fixes/C05-shared-action-cowin.diff); get_event_from_element, _abort_flow, "
+    "modelled by hand: _resolve_action_conflicts (with the repairs of fixes/C05-shared-action-cowin.diff — applied — and fixes/C05-identical-event-of-different-actions.diff); get_event_from_element, _abort_flow, "
     "_advance_head_front are observed, not modelled",
 ]
 EXHAUSTIVE = {"quick": False, "thorough": False}
@@ -76,6 +80,19 @@ def g_prog(rng):
     return case
 
 
+def g_prog_stop2(rng):
+    """Flows of ONE loop that start (different or equal) actions on different events and later stop them on the same
+    event F: `is_equal` ignores action_uid, so the Stop events of two different same-type actions count as identical."""
+    payload = {"a": 1}
+    n = rng.choice([2, 2, 3])
+    flows = []
+    for i in range(n):
+        flows.append({"pat": {"a": 1} if rng.random() < 0.5 else {}, "prio": rng.choice([None, None, "0.5"]), "loop": None, "shape": "direct",
+                      "kind": "action", "act": rng.randrange(2), "ref": True, "stop_after": True,
+                      "trigger": "E" if i == 0 else rng.choice(["E", "E2"])})
+    return {"kind": "prog", "payload": payload, "flows": flows, "mode": "start", "followup": True}
+
+
 SCORE_POOL = [1.0, 0.9, 0.81, 0.9 * 0.9, 0.729, 0.5, 0.45, 0.9 * 0.5, 0.405, 0.0, 1.0, 0.9]
 
 
@@ -91,7 +108,7 @@ def g_fn(rng):
         sc = [(base[j] if rng.random() < 0.6 else rng.choice(SCORE_POOL)) for j in range(ln)]
         flow = i if i < nflows else rng.randrange(nflows)
         act = rng.random() < 0.7
-        heads.append({"flow": flow, "scores": sc, "ev": rng.randrange(nev), "act": act,
+        heads.append({"flow": flow, "scores": sc, "ev": rng.randrange(nev), "act": act, "stop": act and rng.random() < 0.25,
                       "nrefs": (rng.choice([1, 1, 1, 0, 2]) if act else 0), "catch": rng.random() < 0.2})
     floop = [rng.randrange(nloops) for _ in range(nflows)]
     for h in heads:
@@ -99,11 +116,24 @@ def g_fn(rng):
     return {"kind": "fn", "heads": heads, "choices": [rng.randrange(8) for _ in range(4)]}
 
 
+SCORE_PRIOS = [None, None, "1.0", "0.9", "0.5", "0.81", "0.25", "0.75", "0.1", "0.3", "0.729", "0.45"]
+
+
+def g_score(rng):
+    """Two match statements against one event: (mentioned parameters, flow priority) each."""
+    n = rng.randrange(0, 9)
+    side = lambda: {"m": rng.randrange(0, n + 1), "prio": rng.choice(SCORE_PRIOS)}  # noqa
+    a, b = side(), side()
+    if rng.random() < 0.3:
+        b["prio"] = a["prio"]
+    return {"kind": "score", "n": n, "a": a, "b": b}
+
+
 def gen_cases(rng, tier):
     n_prog, n_fn = (400, 6000) if tier == "quick" else (10000, 150000)
     cases = []
     for _ in range(n_prog):
-        c = g_prog(rng)
+        c = g_prog(rng) if rng.random() < 0.95 else g_prog_stop2(rng)
         if tier == "quick":
             c["choices"] = [[rng.randrange(6) for _ in range(6)] for _ in range(3)]
         else:
@@ -113,6 +143,8 @@ def gen_cases(rng, tier):
         cases.append(c)
     for _ in range(n_fn):
         cases.append(g_fn(rng))
+    for _ in range(2000 if tier == "quick" else 40000):
+        cases.append(g_score(rng))
     return cases
 
 
@@ -143,7 +175,8 @@ def render(case):
             body += prio + [f"  match E({pat})", f'  when UtteranceBotAction(script="{loopname}-{f["act"]}")', "    match Never()", "  else",
                             "    $lost = True", "    match Never()"]
         else:
-            body += prio + [f"  match E({pat})", "  " + action_stmt(f, i, loopname)]
+            trig = f"E2({pat})" if f.get("trigger") == "E2" else f"E({pat})"
+            body += prio + [f"  match {trig}", "  " + action_stmt(f, i, loopname)]
         if f.get("stop_after"):
             body += ["  match F()", "  send $r.Stop()"]
         body.append("  match Never()")
@@ -209,7 +242,7 @@ class Recorder:
                     nrefs = sum(1 for v in fs.context.values() if isinstance(v, Action) and v.uid == evd["act"])
                 call["heads"].append({"uid": h.uid, "flow": h.flow_state_uid, "flow_id": fs.flow_id, "loop": fs.loop_id, "scores": list(h.matching_scores),
                                       "ev": evd, "nrefs": nrefs, "catch": bool(h.catch_pattern_failure_label), "pos": h.position,
-                                      "start": bool(evd["act"]) and rec.event_of is None and evd["name"].startswith("Start") and evd["name"].endswith("Action"),
+                                      "start": bool(evd["act"]) and evd["act"] in state.actions and evd["name"] == "Start" + state.actions[evd["act"]].name,
                                       "in_uids": (evd["act"] in fs.action_uids) if evd["act"] else None})
             call["tbl"] = [[u, a.flow_scope_count] for u, a in state.actions.items()]
             rec.cur = call
@@ -284,6 +317,8 @@ def run_prog(case):
         obs["skip"] = "parse:" + type(e).__name__ + ":" + str(e)[:80]
         return obs
     events = [dict({"type": "E"}, **case["payload"])]
+    if any(f.get("trigger") == "E2" for f in case["flows"]):
+        events.append(dict({"type": "E2"}, **case["payload"]))
     if case.get("followup"):
         events += [{"type": "F"}, {"type": "G"}]
     seen_sig = set()
@@ -408,7 +443,7 @@ def run_fn(case):
                 auids.append(a.uid)
                 for r in range(h["nrefs"]):
                     ctx[f"ref_{i}_{r}"] = a
-                evmap[id(el)] = ActionEvent(name=f"StartX{h['ev']}Action", arguments={"k": h["ev"]}, action_uid=a.uid)
+                evmap[id(el)] = ActionEvent(name=("Stop" if h.get("stop") else "Start") + f"X{h['ev']}Action", arguments={"k": h["ev"]}, action_uid=a.uid)
             else:
                 evmap[id(el)] = Event(name=f"Ev{h['ev']}", arguments={"k": h["ev"]})
         els.append(SpecOp(op="match", spec=Spec(name="CatchTarget")))
@@ -423,7 +458,15 @@ def run_fn(case):
     obs = {}
     saved_abort, saved_gen = sm._abort_flow, sm._generate_action_event_from_actionable_element
     sm._abort_flow = lambda *a, **k: None
-    sm._generate_action_event_from_actionable_element = lambda *a, **k: None
+
+    def stub_gen(st, head):
+        # what the real generation does to state.actions: a generated Start event sets flow_scope_count = 1
+        fs = st.flow_states[head.flow_state_uid]
+        e = evmap[id(st.flow_configs[fs.flow_id].elements[head.position])]
+        if isinstance(e, ActionEvent) and e.action_uid in st.actions and e.name == "Start" + st.actions[e.action_uid].name:
+            st.actions[e.action_uid].flow_scope_count = 1
+
+    sm._generate_action_event_from_actionable_element = stub_gen
     try:
         with Recorder(sm, case["choices"], event_of=lambda st, fs, el: evmap[id(el)]) as rec:
             saved_get = sm.get_event_from_element
@@ -440,7 +483,71 @@ def run_fn(case):
     return obs
 
 
+def run_score(case):
+    """The real `_compute_event_comparison_score` on two reference events; exact (k, priority) beside the floats."""
+    sm = _SM
+    from fractions import Fraction
+
+    from nemoguardrails.colang.v2_x.runtime.flows import Event
+
+    from ..impl import valjson as vj
+
+    n = case["n"]
+    keys = [f"p{i}" for i in range(n)]
+    ev = Event(name="E", arguments={k: i for i, k in enumerate(keys)})
+    state = types.SimpleNamespace(actions={})
+    obs = {}
+    for side in ("a", "b"):
+        d = case[side]
+        ref = Event(name="E", arguments={k: i for i, k in enumerate(keys[: d["m"]])})
+        prio = float(d["prio"]) if d["prio"] else None
+        try:
+            f = float(sm._compute_event_comparison_score(state, ev, ref, prio))
+        except Exception as e:  # noqa
+            obs["exc"] = type(e).__name__
+            return obs
+        k = n - d["m"]
+        exact = (Fraction(prio) if prio else Fraction(1)) * Fraction(9, 10) ** k
+        obs[side] = {"f": f, "k": k, "prio": (list(vj.dyadic(prio)) if prio else None), "exact": [exact.numerator, exact.denominator]}
+    return obs
+
+
+def _score_near_tie(obs):
+    from fractions import Fraction
+
+    xa, xb = Fraction(*obs["a"]["exact"]), Fraction(*obs["b"]["exact"])
+    return xa != xb and abs(xa - xb) <= Fraction(1, 10 ** 9) * max(xa, xb)
+
+
 def run_impl(case):
+    if case["kind"] == "score":
+        obs = run_score(case)
+        if "exc" in obs:
+            obs.update(_oracle="matcher raised " + obs["exc"], _model=[], _sig=None, _nt=False, _tags=["kind:score", "exc"])
+            return obs
+        a, b = obs["a"], obs["b"]
+        near = _score_near_tie(obs)
+        orc = None
+        for x in (a, b):
+            want = float(x["exact"][0]) / float(x["exact"][1])
+            if abs(x["f"] - want) > 1e-9 * max(1.0, want):
+                orc = f"score {x['f']} is not priority * 0.9^(unmentioned parameters) = {want}"
+        if orc is None and a["prio"] == b["prio"] and a["k"] != b["k"]:
+            # "most specific = fewest unmentioned parameters" under equal priority
+            if (a["k"] < b["k"]) != (a["f"] > b["f"]):
+                orc = f"fewer unmentioned parameters ({a['k']} vs {b['k']}) do not give the larger score ({a['f']} vs {b['f']})"
+        obs["_oracle"] = orc
+        sign = (a["f"] > b["f"]) - (a["f"] < b["f"])
+        obs["_model"] = [[{"m": "C05.mcmp", "a": {"k": a["k"], "prio": a["prio"]}, "b": {"k": b["k"], "prio": b["prio"]}},
+                          {"score_sign": sign, "near": near}]]
+        obs["_sig"] = None
+        obs["_nt"] = a["k"] != b["k"] or a["prio"] != b["prio"]
+        obs["_tags"] = ["kind:score", "near-tie-skipped" if near else "order-compared", f"sign:{sign}"]
+        return obs
+    return _run_impl(case)
+
+
+def _run_impl(case):
     """Everything that is per case (oracle, model requests with the expected answers, tags) is computed here, in the
     worker process; the parent only ships the requests to the Lean driver and compares integers."""
     obs = run_prog(case) if case["kind"] == "prog" else run_fn(case)
@@ -512,11 +619,32 @@ def shared_action_region(call):
     return False
 
 
+def distinct_actions_identical_event(call):
+    """Documented non-violation: two heads of one loop whose events are equal by name+arguments but belong to DIFFERENT
+    actions and are not Start events (e.g. two `send $r.Stop()`): the code treats them as identical (co-win, the second
+    action is dropped from state.actions without a Stop event)."""
+    seen = {}
+    for h in call["heads"]:
+        a = h["ev"]["act"]
+        if a and not h.get("start"):
+            k = (h["loop"], h["ev"]["name"], h["ev"]["args"])
+            if k in seen and seen[k] != a:
+                return True
+            seen.setdefault(k, a)
+    return False
+
+
 def model_requests(case, obs):
     return [r for r, _ in obs["_model"]]
 
 
 def compare_one(exp, m):
+    if "score_sign" in exp:
+        # hypothesis `hr` of more_specific_wins: the float order (which the ranks are taken from) is the exact order of
+        # priority * (9/10)^k; pairs whose exact values are closer than 1e-9 (relative) are outside the claim
+        if exp["near"] or m["cmp"] == exp["score_sign"]:
+            return None
+        return f"float order of the real scores ({exp['score_sign']}) differs from the exact order of prio*(num/den)^k ({m['cmp']})"
     if exp["dup"]:
         return "assumption violated: duplicate head uids in the input of _resolve_action_conflicts"
     if m["advancing"] != exp["adv"]:
@@ -587,6 +715,8 @@ def oracle_call(call):
             if not _vec_ge(w["scores"], h["scores"]):
                 return f"loop {loop}: winner scores {w['scores']} are not maximal (competitor {h['scores']})"
             same = (h["ev"]["name"], h["ev"]["args"]) == (w["ev"]["name"], w["ev"]["args"])
+            if same and h["ev"]["act"] and w["ev"]["act"] and h["ev"]["act"] != w["ev"]["act"] and not w.get("start"):
+                same = False  # an event of ANOTHER action instance is only "the identical action" when it starts it
             if h["uid"] == w["uid"] or same:
                 if h["uid"] not in adv:
                     return f"loop {loop}: head with the winning event does not advance"
@@ -616,6 +746,8 @@ def spec_vector(case, f):
 
 
 def fits(case, f):
+    if f.get("trigger") == "E2":
+        return False  # waits for another event: the first event must leave it untouched
     return all(k in case["payload"] and case["payload"][k] == v for k, v in f["pat"].items())
 
 
@@ -727,6 +859,8 @@ def signature(case, obs, msg):
 
 def _signature(case, obs):
     try:
+        if any(distinct_actions_identical_event(c) for c in all_calls(case, obs)):
+            return "identical-event-of-different-actions"
         if any(shared_action_region(c) for c in all_calls(case, obs)):
             return "cowin-on-shared-action"
     except Exception:  # noqa
@@ -781,6 +915,8 @@ def _tags(case, obs):
             t.append("has-cowinner-or-caught")
         if shared_action_region(c):
             t.append("shared-action-region")
+        if distinct_actions_identical_event(c):
+            t.append("identical-nonstart-event-of-different-actions")
     return t
 
 
